@@ -60,6 +60,25 @@ func (sc *Scenario) E3Eligible() bool {
 	if len(sc.Faults) > 0 || len(sc.Ticks) > 0 || sc.WriteOracle || sc.RefreshLoop || sc.AfterBoot != nil || len(sc.RefuseDial) > 0 || sc.Whitelist != nil || sc.HandshakeCuts != nil {
 		return false
 	}
+	// session-4 world features that the real-socket replayer does not model
+	if sc.RealBoot || sc.NoProbeDrain || sc.BusyTicks || sc.ServerConns > 1 || sc.SlowBackends || sc.CoalesceAll || sc.CoalesceChoice || sc.Info != nil || sc.ProbePiece > 0 || sc.SlowlogMs > 0 || sc.DebugLog {
+		return false
+	}
+	for _, n := range sc.Nodes {
+		if len(n.Markers) > 0 {
+			return false
+		}
+	}
+	for _, c := range sc.Clients {
+		if c.ConnectGate != nil || c.Flood || c.Slow {
+			return false
+		}
+		for _, ch := range c.Chunks {
+			if ch.Gate != nil {
+				return false
+			}
+		}
+	}
 	if !sc.DisableSlave {
 		// with two or more replicas the real binary draws the read replica at random
 		cnt := map[string]int{}
